@@ -7,6 +7,8 @@ import Enc.Spec.Json.StdEnc
 import Enc.Spec.Json.Grammar
 import Enc.Model.Json.DecScalar
 import Enc.Spec.Json.StdDec
+import Enc.Model.Json.DynNumber
+import Enc.Spec.Json.DynNumber
 /-! line-protocol handlers, area `json` (syntax layer). -/
 namespace Enc.Driver.Json
 open Enc
@@ -87,6 +89,20 @@ def handle (op : String) (args : List String) : Option (String × String × Stri
     let m := String.join (tys.map fun (t, _, _) => sh (Model.Json.unmarshalInt t b) ++ ",")
     let sp := String.join (tys.map fun (t, lo, hi) => sh (Spec.Json.unmarshalInt t.signed lo hi b) ++ ",")
     pure (m, sp, "")
+  -- json.dynnum <flags 0..15> <hex>: dynamic type (and value) chosen for a number stored into an interface
+  | "json.dynnum", [m, h] => do
+    let m ← m.toNat?
+    let b ← fromHex h
+    let fl : Model.Json.DynFlags := { useNumber := m % 2 == 1, useBigInt := m / 2 % 2 == 1, useInt64 := m / 4 % 2 == 1, useUint64 := m / 8 % 2 == 1 }
+    let str (x : Bytes) : String := String.ofList (x.map fun c => Char.ofNat c.toNat)
+    let sh : Model.Json.Dyn → String
+      | .u64 v => "u64:" ++ toString v
+      | .i64 v => "i64:" ++ toString v
+      | .big l => "big:" ++ toString (Spec.Json.intValue l)
+      | .num l => "num:" ++ str l
+      | .f64 => "f64"
+      | .err => "err"
+    pure (sh (Model.Json.decodeDynamicNumber fl b), sh (Spec.Json.dynSpec fl b), "")
   | "json.decstr", [h] => do
     let b ← fromHex h
     let sh : Option Bytes → String := fun | some v => "ok:" ++ toHex v | none => "err"
